@@ -460,7 +460,15 @@ impl Decls {
                         s += &format!("#[derive(FromJson, IntoJson)]\npub struct {} {{\n", n);
                         for (i, (k, _)) in fs.iter().enumerate() {
                             if *k != format!("f{}", i) && !RAW_KEYWORDS.contains(&k.as_str()) {
+                                // other attributes of the `name = "string"` form next to the rename (a doc comment is
+                                // `#[doc = "…"]`): only `rename` names the key
+                                match (i + fs.len()) % 4 {
+                                    1 => s += "    /// documented field\n",
+                                    2 => s += "    #[doc = \"wrong-key\"]\n",
+                                    _ => {}
+                                }
                                 s += &format!("    #[rename = {}]\n", rs_str(k));
+                                if (i + fs.len()) % 4 == 3 { s += "    /// documented after the rename\n"; }
                             }
                             s += &format!("    pub {}: {},\n", field_ident('d', i, k), tys[i]);
                         }
@@ -506,7 +514,13 @@ impl Decls {
                 s += &format!("#[derive(FromJson, IntoJson)]\npub enum {} {{\n", n);
                 for (i, k) in ns.iter().enumerate() {
                     if *k != format!("V{}", i) && !RAW_KEYWORDS.contains(&k.as_str()) {
+                        match (i + ns.len()) % 4 {
+                            1 => s += "    /// documented variant\n",
+                            2 => s += "    #[doc = \"wrong-name\"]\n",
+                            _ => {}
+                        }
                         s += &format!("    #[rename = {}]\n", rs_str(k));
+                        if (i + ns.len()) % 4 == 3 { s += "    /// documented after the rename\n"; }
                     }
                     s += &format!("    {},\n", variant_ident(i, k));
                 }
